@@ -35,6 +35,8 @@ def main():
     rec = {"property": pid, "label": label}
     try:
         shutil.copytree(src, os.path.join(wt, "OUT", label))
+        with open(os.path.join(wt, "OUT", "go.mod"), "w") as fh:   # keeps `go build ./...` out of the demo files
+            fh.write("module out\n\ngo 1.22\n")
         run_txt = open(os.path.join(src, "demo", "RUN.txt")).read()
         cmds = []
         for ln in run_txt.splitlines():
@@ -55,6 +57,8 @@ def main():
         rec["files_changed"] = files
         rcb, outb = sh("go build ./... && go build -tags verif " + " ".join(pkgs), wt)
         rec["builds"] = rcb == 0
+        if rcb:
+            rec["build_output"] = outb[-600:]
         # existing tests: move the demo test files away first
         demo_files = [c.split()[-1] for c in cmds if c.startswith("cp ")]
         stash = []
